@@ -50,6 +50,9 @@ pub fn run(ctx: &Ctx) -> Value {
             let fo = FixedOffset::east_opt(off).unwrap();
             let z = mk(u, off);
             tw.emit(ev("from_utc", json!({"u": ndt(u), "off": off}), || json!({"r": ndt(z.naive_utc()), "off2": z.offset().local_minus_utc(), "utcback": ndt(z.to_utc().naive_utc())})));
+            // the same through the other constructor and the FixedOffset view (timezone() hands back the zone, here the offset itself)
+            tw.emit(ev("from_utc", json!({"u": ndt(u), "off": off, "route": "from_naive_utc_and_offset"}), || { let q = DateTime::<FixedOffset>::from_naive_utc_and_offset(u, fo).fixed_offset();
+                json!({"r": ndt(q.naive_utc()), "off2": q.timezone().local_minus_utc(), "utcback": ndt(chrono::DateTime::<chrono::Utc>::from(q).naive_utc())}) }));
             // wall-clock accessors work in the one-day headroom too
             tw.emit(ev("wall", json!({"u": ndt(u), "off": off}), || { let iw = z.iso_week(); json!({"y": z.year(), "mo": z.month(), "d": z.day(), "ord": z.ordinal(), "wd": wd(z.weekday()),
                 "iy": iw.year(), "iw": iw.week(), "h": z.hour(), "mi": z.minute(), "s": z.second(), "ns": z.nanosecond()}) }));
@@ -152,5 +155,7 @@ pub fn run(ctx: &Ctx) -> Value {
         }
     }
     tw.finish();
-    json!({"events": tw.total, "instants": us.len(), "offsets": OFFS.len(), "replacement_events": n_ev[1], "session_steps": n_ev[3], "sessions": sessions})
+    let dz = super::datez::run(ctx);      // the deprecated Date<Tz> type, judged by Trace_DateTz.tla
+    json!({"events": tw.total, "instants": us.len(), "offsets": OFFS.len(), "replacement_events": n_ev[1], "session_steps": n_ev[3], "sessions": sessions,
+           "date_tz_events": dz["date_tz_events"], "date_tz_dates": dz["date_tz_dates"]})
 }
